@@ -388,6 +388,12 @@ func (s *scheduler) establishIncomingHandshake(pc *conn.PendingConn, rb conn.Rem
 		s.failIncomingHandshake(pc, fmt.Errorf("torrent stat: %s", err))
 		return
 	}
+	if info.InfoHash() != pc.InfoHash() {
+		// The pending conn was registered under the info hash the remote peer
+		// claimed, so a conn for the torrent's actual hash could never replace it.
+		s.failIncomingHandshake(pc, errors.New("info hash does not match torrent"))
+		return
+	}
 	c, err := s.handshaker.Establish(pc, info, rb)
 	if err != nil {
 		s.failIncomingHandshake(pc, fmt.Errorf("establish handshake: %s", err))
